@@ -10,6 +10,52 @@ EXIT_OK, EXIT_VIOLATION, EXIT_HARNESS = 0, 1, 3
 
 
 # --------------------------------------------------------------------------
+# scratch space: one directory per invocation under /dev/shm (fallback: the default temp dir),
+# removed on exit; stale ones of killed invocations are removed on the next start.
+
+def scratch_root():
+    base = "/dev/shm" if os.path.isdir("/dev/shm") and os.access("/dev/shm", os.W_OK) else None
+    if base is None:
+        import tempfile
+        base = tempfile.gettempdir()
+    return base
+
+
+SCRATCH = os.environ.get("MXSIM_SCRATCH")
+
+
+def init_scratch():
+    global SCRATCH
+    root = scratch_root()
+    for n in os.listdir(root):
+        if n.startswith("mxverif-"):
+            try:
+                pid = int(n.split("-")[1])
+                os.kill(pid, 0)
+            except (ValueError, IndexError):
+                continue
+            except ProcessLookupError:
+                shutil.rmtree(os.path.join(root, n), ignore_errors=True)
+            except PermissionError:
+                pass
+    SCRATCH = os.path.join(root, "mxverif-%d" % os.getpid())
+    os.makedirs(SCRATCH, exist_ok=True)
+    os.environ["MXSIM_SCRATCH"] = SCRATCH
+    import atexit
+    me = os.getpid()
+    atexit.register(lambda: os.getpid() == me and shutil.rmtree(SCRATCH, ignore_errors=True))
+    return SCRATCH
+
+
+def run_dir(tag):
+    """A fresh private directory for one run (removed by the caller or with the scratch root)."""
+    d = os.path.join(SCRATCH or init_scratch(), "%s-%d" % (tag, os.getpid()))
+    shutil.rmtree(d, ignore_errors=True)
+    os.makedirs(d)
+    return d
+
+
+# --------------------------------------------------------------------------
 # seeds
 
 def h64(*parts):
@@ -398,6 +444,7 @@ def check_main(prop, args):
     base_seed = args.seed
     nlanes = args.lanes
     t0 = time.time()
+    init_scratch()
     known = load_known()
 
     if args.replay:
